@@ -76,6 +76,8 @@ func (k Keeper) AddAllowedBidders(ctx context.Context, auctionId uint64, allowed
 		if err != nil {
 			return err
 		}
+		// store the canonical spelling: matching looks allowances up by the bidder string of the bid
+		ab.Bidder = bidder.String()
 		if err := k.AllowedBidder.Set(ctx, collections.Join(auctionId, bidder), ab); err != nil {
 			return err
 		}
